@@ -58,7 +58,7 @@ POOL = ["", " ", "'", '"', "'a", "(", ")", "((", "[", "{", "\\", "a\\", "...", "
         "-inf", "1,", ",", ",,", "a,,b", "a b", "a.b", ".", "..", "*", "[a", "a)", "(?P<x>", "(?", "a{", "+", "\\1", "%", "%%", "DD.DD", "YYYY YY", "MMm",
         "count", "x < ", "x ==", "x < y", "x <> 1", "x < 1; import os", "x < '1'", "x.__class__", "lambda", "None", "True", "\t", "\n", "a\nb", "\r",
         " a", "a ", "0", "-1", "1.5", "01", "1_0", "١", "TAB", "utf-8", "crlf", "none", "x" * 300,
-        "b'a'", "r'x'", "u'a'", "rb'a'", "f'x'", 'b"a"...3', "a'b'"]
+        "b'a'", "r'x'", "u'a'", "rb'a'", "f'x'", 'b"a"...3', "a'b'", "\\\na < 3", "\\\n1...2", "rot13", "hex", "undefined", "utf-16", "punycode"]
 BASES = {
     "delimited": [["D", "Format", "Delimited"], ["D", "Header", "1"], ["D", "Item delimiter", ";"], ["D", "Allowed characters", "32..."], ["D", "Encoding", "utf-8"],
                   ["F", "a", "12", "", "1...5", "Integer", "0...99999"], ["F", "b", "x", "X", "", "Choice", "x, y"], ["F", "c", "1.5", "", "", "Decimal", "0...10"],
@@ -70,7 +70,8 @@ BASES = {
     "ods": [["D", "Format", "Ods"], ["D", "Sheet", "2"], ["F", "a", "", "X", "1...", "Integer", "1..."], ["C", "dc", "DistinctCount", "a >= 1"]],
 }
 FIELD_DECLS = [("Integer", "", "0...99"), ("Integer", "1...3", ""), ("Decimal", "", "0...10"), ("Decimal", "", "1..."), ("Choice", "", "x, y"),
-               ("Constant", "", "k"), ("DateTime", "", "DD.MM.YYYY hh:mm"), ("DateTime", "", "YY"), ("Pattern", "", "a*[b-c]?"), ("RegEx", "", "a.c+"), ("Text", "1...5", "")]
+               ("Constant", "", "k"), ("DateTime", "", "DD.MM.YYYY hh:mm"), ("DateTime", "", "YY"), ("Pattern", "", "a*[b-c]?"), ("RegEx", "", "a.c+"), ("Text", "1...5", ""),
+               ("Integer", "", "0...0x" + "f" * 4000), ("Integer", "", "0..." + "9" * 5000), ("Decimal", "", "0...1e99999")]
 
 
 def hostile_rows(base, y, x, v):
@@ -118,6 +119,10 @@ ALLTYPES_FIXED = [["D", "Format", "fixed"], ["D", "Encoding", "utf-8"], ["D", "L
                   ["F", "t", "", "X", "10", "DateTime", "DD.MM.YYYY"], ["F", "p", "", "X", "2", "Pattern", "a*"], ["F", "r", "", "X", "2", "RegEx", "a."],
                   ["F", "k", "", "", "1", "Constant", "k"], ["F", "s", "", "X", "4", "Text"]]
 ALLTYPES_DELIMITED = [["D", "Format", "delimited"], ["D", "Encoding", "utf-8"]] + [r[:4] + [""] + r[5:] for r in ALLTYPES_FIXED[3:]]
+for _enc in ("utf-16", "utf-32", "punycode", "utf-7", "unicode_escape", "idna"):
+    # encodings whose decoders fail in their own ways (no byte order mark, bad escape, ...): always a DataFormatError
+    DATA_CID["csv+" + _enc] = [["D", "Format", "delimited"], ["D", "Encoding", _enc], ["F", "a", "", "", "", "Integer"], ["F", "b", "", "X", "", "Text"]]
+    DATA_CID["txt+" + _enc] = [["D", "Format", "fixed"], ["D", "Encoding", _enc], ["D", "Line delimiter", "lf"], ["F", "a", "", "", "3", "Integer"], ["F", "b", "", "X", "5", "Text"]]
 DATA_CID["txtall"] = ALLTYPES_FIXED
 DATA_CID["csvall"] = ALLTYPES_DELIMITED
 TEXT_BLOBS = {"txtall": [b"  1   1.5x01.02.2003abaxkabcd\n", b"  1      x                    \n", b"  1  1,5 x01.02.2003abaxkabcd\n", b"  1   NaNx31.02.2003abaxkabcd\n",
@@ -125,6 +130,9 @@ TEXT_BLOBS = {"txtall": [b"  1   1.5x01.02.2003abaxkabcd\n", b"  1      x       
               "csvall": [b"1,1.5,x,01.02.2003,ab,ax,k,abcd\n", b"1,,x,,,,,\n", b"1,NaN,x,,,,,\n", b"1,1.5,x,31.02.2003,,,,\n", b"1,1.5\n"],
               "csv": [b"1,x\n", b"1,\xff\n", b'1,"x\n', b"1,x\x00y\n", b"\xff\xfe1\x00", b"1,x\r\r\n2,y", b'1,"a"b\n', b"", b"\n\n", b"1\n", b"1,2,3\n", b"a,b\n", b"1,\xc3\n"],
               "txt": [b"  1abcde\n", b"  1abc", b"  1abcde\r\n", b"  1ab\xffde\n", b"", b"\n", b"  1abcdeX", b"  1abcde\n  2", b"\xe4" * 8 + b"\n", b"  1abcd\xc3"]}
+for _k in list(DATA_CID):
+    if "+" in _k:
+        TEXT_BLOBS[_k] = [b"1,x\n", b"  1abcde\n", b"\xff\xfe1\x00,\x00x\x00\n\x00", b"\\u12", b"xn--\xff", b"+AGE-,x\n", b"", b"\xff"]
 _BLOBS = {}
 # values for table:number-rows-repeated (R), table:number-columns-repeated of a filled (C) and an empty (E) cell, text:c (S)
 ATTR_POOL = ["0", "-1", "-0", "+2", "2", " 2 ", "1.5", "1e2", "x", "", "0x10", "１", "٣", "00", "1_0", "99999999999999999999", "-99999999999999999999", "\t1\n", "1 1", "NaN", "True"]
